@@ -3,7 +3,9 @@
 p=$1; shift
 cd /repo && git diff --quiet || { echo "/repo has uncommitted changes"; exit 2; }
 git -C /repo apply $p || { echo "patch does not apply"; exit 2; }
-trap "git -C /repo checkout -- . " EXIT
+# evidence files must only ever describe runs on the unchanged tree: keep them aside while the patch is applied
+rm -rf /verif/.build/evidence.keep && cp -r /verif/evidence /verif/.build/evidence.keep
+trap "git -C /repo checkout -- . ; rm -rf /verif/evidence && mv /verif/.build/evidence.keep /verif/evidence" EXIT
 for prop in "$@"; do
   out=$(cd /verif && ./check $prop --tier quick 2>&1)
   rc=$?
